@@ -39,7 +39,7 @@ RULE = (
     "distinct by (format, missing parts, PREFER_DAY_OF_MONTH, PREFER_MONTH_OF_YEAR, clock boundary class, zone class, tick policy) and by (format, language) for localized names"
 )
 ASSUMPTIONS = [
-    "expected value: fields the format expresses come from the rendered datetime; missing year = current year, missing day/month per PREFER_* with clamping to the last valid day; 'current' and the year read the simulated clock in the process zone (a consistently-UTC reading is also accepted: the statement does not say whose 'current')",
+    "expected value: fields the format expresses come from the rendered datetime; missing year = current year, missing day/month per PREFER_* with clamping to the last valid day; 'current' and the missing year are today's in the process-local zone (what datetime.today() means to a caller; the design-phase relaxation that also accepted the UTC date was dropped: it let a local->UTC switch of the clock read go unnoticed)",
     "under a ticking clock each clock-derived field may come from any instant the call read (the statement says 'the current year', not one atomic now)",
     "a stated day that does not exist in the completed (year, month) is not judged; year-less formats are not rendered on Feb 29",
     "localized names are used only if the language itself reads '15 <name> 2015' as that month in a heuristic parse (single-meaning names)",
@@ -128,7 +128,7 @@ def expected_set(fmt, d, prefs, read_us, zone):
     pd = prefs.get("PREFER_DAY_OF_MONTH", "current")
     pm = prefs.get("PREFER_MONTH_OF_YEAR", "current")
     out = set()
-    for z in (zone, "UTC"):
+    for z in (zone,):
         loc = [local_fields(us, z) for us in read_us] or [None]
         ys = sorted({x.year for x in loc if x}) or [None]
         ms = sorted({x.month for x in loc if x}) or [None]
